@@ -184,6 +184,7 @@ struct EventCmp { bool operator()(const Event &a, const Event &b) const { return
 struct Sim {
 	uint64_t seed = 0;
 	uint64_t now = 0;               // us
+	bool poison_tails = false;      // pair runs: the unused rest of every decode buffer (hook VERIF_TAIL in /repo) gets the residue pattern
 	uint64_t epoch = 1700000000;    // time() = epoch + now/1e6
 	uint64_t seq = 0;
 	uint64_t nevents = 0, max_events = 400000;
